@@ -4,6 +4,7 @@ import (
 	"bytes"
 	"encoding/binary"
 	"errors"
+	"math"
 	"time"
 
 	ps "github.com/prometheus/client_golang/prometheus"
@@ -32,6 +33,7 @@ var errInvalidAggregate = errors.New("invalid aggregate")
 var errInvalidWeightNum = errors.New("invalid weight number")
 var errInvalidSrcKeyNum = errors.New("invalid src key number")
 var errScoreMiss = errors.New("missing score for zset")
+var errScoreNotANumber = errors.New("resulting score is not a number (NaN)")
 
 const (
 	zsetKeySep   byte = ':'
@@ -532,16 +534,19 @@ func (db *RockDB) ZIncrBy(ts int64, key []byte, delta float64, member []byte) (f
 	}
 
 	score = oldScore + delta
-
-	sk := zEncodeScoreKey(false, false, table, rk, member, score)
-	wb.Put(sk, []byte{})
-	wb.Put(ek, PutFloat64(score))
+	if math.IsNaN(score) {
+		return 0, errScoreNotANumber
+	}
 
 	if v != nil {
-		// so as to update score, we must delete the old one
+		// so as to update score, we must delete the old one,
+		// before the new one is written since both are the same key if the score is unchanged
 		oldSk := zEncodeScoreKey(false, false, table, rk, member, oldScore)
 		wb.Delete(oldSk)
 	}
+	sk := zEncodeScoreKey(false, false, table, rk, member, score)
+	wb.Put(sk, []byte{})
+	wb.Put(ek, PutFloat64(score))
 
 	err = db.rockEng.Write(wb)
 	return score, err
